@@ -12,6 +12,16 @@ CLAIMED = {
   note="Does not decide: that replay reproduces exactly the written values, torn-tail arithmetic, file-system semantics of fsync/rename. Trusts go/types resolution and the go/cfg graph; function anchors are resolved by name.",
   technique="static analysis: must-precede / error-outcome dataflow over go/cfg + typed AST, who-may-call table",
   ref="§4 C01"),
+ "C04": dict(
+  text="Structural clauses of the hinted-handoff queue contract decided on every path: append acknowledged only after write+fsync (buffered path is a recorded known finding), flush before close and before tail rotation, Empty() a function of queue content and never of the file cursor, one agreed at-end predicate, SendWrite advances only after the target answered / EOF / undecodable block, footer written and synced before the head offset moves, frozen who-may-discard table with a guarded inactive-processor purge, gap-free batch split, segment list sorted by numeric id with head=first/tail=last.",
+  note="Does not decide ordering across concurrent appenders, crash images of torn blocks, or size-limit arithmetic. One known finding (buffered append acknowledged before durable) is listed in known_findings.json.",
+  technique="static analysis: outcome dataflow + path exploration over go/cfg, who-may-call table, comparison-shape agreement",
+  ref="§4 C04"),
+ "C05": dict(
+  text="Structural clauses of the distributed read path: every decode site of a coordinator *Response with an Err field surfaces a non-nil Err as a non-nil error on every path; retry loops and fan-outs return success only after every call of the round returned nil and mark failing nodes dirty before re-partitioning; per-iteration analysis of the shard-assignment loops shows each shard is appended to exactly one node bucket (or the mapping aborts); the already-mapped guard tests the map the loop fills; a failed framed exchange on a pooled connection is followed by MarkUnusable on every path; the value-type dispatch of the remote iterator path is exhaustive.",
+  note="Does not decide liveness of owners, equality of the merged result with a single-node result, or truncated streams. The skip of a shard with an empty owner list is exempted on the grounds that the metadata never publishes a live shard without owners (C06 invariant).",
+  technique="static analysis: per-site nil/outcome dataflow, loop-iteration path counting, type-switch exhaustiveness",
+  ref="§4 C05"),
 }
 
 NA = {
